@@ -68,7 +68,9 @@ pub struct Interpreter<TStdlib: Stdlib, TStdIn: Input, TStdOut: Printer, TLpt1: 
     /// Temporarily holds byref values that are to be copied back to the calling context
     by_ref_stack: VecDeque<Variant>,
 
-    function_result: Option<Variant>,
+    /// A stack: storing a by-ref argument back can call a function (in an array index)
+    /// while the result of the outer call is still stashed.
+    function_result: Vec<Variant>,
 
     value_stack: Vec<Variant>,
 
@@ -148,11 +150,11 @@ impl<TStdlib: Stdlib, TStdIn: Input, TStdOut: Printer, TLpt1: Printer> Interpret
     }
 
     fn take_function_result(&mut self) -> Option<Variant> {
-        self.function_result.take()
+        self.function_result.pop()
     }
 
     fn set_function_result(&mut self, v: Variant) {
-        self.function_result = Some(v);
+        self.function_result.push(v);
     }
 
     fn var_path_stack(&mut self) -> &mut VecDeque<Path> {
@@ -283,7 +285,7 @@ impl<TStdlib: Stdlib, TStdIn: Input, TStdOut: Printer, TLpt1: Printer>
             user_defined_types,
             var_path_stack: VecDeque::new(),
             by_ref_stack: VecDeque::new(),
-            function_result: None,
+            function_result: vec![],
             value_stack: vec![],
             last_error_address: None,
             last_error_code: None,
